@@ -5,9 +5,9 @@ int main(int argc, char** argv)
 {
   FEAT::Runtime::ScopeGuard guard(argc, argv);
   verif::Spec spec; c08::fill_spec(spec, "c08_precond", "CSR matrix");
-  spec.bounds_quick = "n 1..4 with ALL off-diagonal patterns (1,4,64,4096); diag {1,2,4,-2} rotated (2 variants); "
-    "Jacobi/SOR/SSOR omega {1,1/2,3/2}, ILU p {0,1,2,n}, Polynomial m {1,2,3} omega {1,1/2}, Scale omega {1,1/2,3/2}, Diagonal, MatrixPrecond; filters None, Unit{0},{n-1},{1},{0,n-1}; "
-    "life-cycle depth 12 (fixpoint of 72 states reached at 9)";
-  spec.bounds_thorough = "additionally n=5 with the empty/full/tridiagonal/lower/upper patterns and every 251st of the 2^20; life-cycle depth 14";
+  spec.bounds_quick = "n 1..4 with ALL off-diagonal patterns (1,4,64,4096); diag {1,2,4,-2} rotated (2 variants) + all-negative (n<=3; thorough: all n); "
+    "Jacobi/SOR/SSOR omega {1,1/2,3/2}, ILU p {0,1,2,n}, Polynomial m {1,2,3} omega {1,1/2}, Scale omega {1,1/2,3/2,0,-2}, Diagonal, MatrixPrecond; filters None, Unit{0},{n-1},{1},{0,n-1}; "
+    "life-cycle depth 14 with set_omega (all patterns n<=3, every 8th pattern of n=4; fixpoint reached)";
+  spec.bounds_thorough = "additionally n=5 with the empty/full/tridiagonal/lower/upper patterns and every 251st of the 2^20; life-cycle depth 16 for all patterns";
   return verif::run(spec, argc, argv, [&](verif::Ctx& c) { c08::enumerate<1>(c, 4, 5, [](int n, bool) -> unsigned { return n >= 5 ? 251u : 1u; }); });
 }
